@@ -413,7 +413,13 @@ class Oracle:
             if outer is not None:
                 continue                 # the outer binding of the same name shows through
             kinds = {k for (_l, k) in sites}
-            if "import" in kinds:
+            declared_below = c.kind == "Module" and self.declared_global_below(x)
+            if "global" in self.facts.binding_kinds(self.node_of(c), x) or declared_below:
+                # a nested scope that declares x global appends its assignments to the module's name only once
+                # that scope has been computed (lazily): the line rope knows depends on what was asked before
+                # a global declaration at module level / in a class: the name is an AssignedName without module
+                inherited.append(("later-local-kept", x, "global-declaration-not-honoured"))
+            elif "import" in kinds:
                 inherited.append(("later-local-kept", x, "C20:later-import-kept"))
             elif kinds <= {"walrus", "annotation"}:
                 # no assignment with a node: walrus targets and bare annotations have no definition line
@@ -472,7 +478,7 @@ class Oracle:
         return problems + unexplained, inherited, c
 
     # ---- binding sites
-    def binding_sites(self, scope_node, x):
+    def binding_sites(self, scope_node, x, _nested=True):
         """[(line, kind)] of the constructs that bind x directly in the scope"""
         out = []
 
@@ -524,6 +530,12 @@ class Oracle:
                     sc = self.facts.enclosing_scope(sc)
                 if sc is scope_node:
                     out.append((n.target.lineno, "walrus"))
+        if isinstance(scope_node, ast.Module) and _nested:
+            # a function / class that declares x global binds the module's x
+            for n in ast.walk(scope_node):
+                if isinstance(n, SCOPE_STMTS) and any(
+                        isinstance(g, ast.Global) and x in g.names for g in self.facts.block_statements(n)):
+                    out.extend(self.binding_sites(n, x, _nested=False))
         return sorted(set(out))
 
     def value_lines(self, scope_node, x):
@@ -560,11 +572,25 @@ class Oracle:
             return False
         return any(t < line <= v for (t, v) in self.value_lines(self.node_of(scope), x))
 
+    def declared_global_below(self, x):
+        """some function / class declares x global"""
+        return any(isinstance(n, SCOPE_STMTS) and any(isinstance(g, ast.Global) and x in g.names
+                                                      for g in self.facts.block_statements(n))
+                   for n in ast.walk(self.tree))
+
     def may_be_dropped(self, scope, x, line):
         """later_locals=False may leave out x: it is a local of the scope with a binding on or after the line"""
         if scope.resolve.get(x) is not scope:
             return False
         return any(l >= line for (l, _k) in self.binding_sites(self.node_of(scope), x))
+
+    def defined_by_statement_name(self, node, line):
+        """the binding of node.id on `line` (in the scope the name resolves to) is a def / class statement"""
+        sc = self.py(self.facts.enclosing_scope(node))
+        r = sc.resolve.get(node.id) if sc is not None else None
+        if r is None or isinstance(r, str):
+            return False
+        return (line, "def") in self.binding_sites(self.node_of(r), node.id)
 
     def judge_definition(self, node, got_line, same_module):
         """node: ast.Name.  Returns (problem | None, inherited cause | None)"""
@@ -598,6 +624,8 @@ class Oracle:
             return None, cause
         if got_line is None and kinds and kinds <= {"walrus", "annotation", "augassign", "del"}:
             return None, "C20:definition-line-unknown"
+        if r is self.root and self.declared_global_below(x) and (got_line is None or got_line in want):
+            return None, "global-declaration-not-honoured"
         if got_line is not None and r is not None and not isinstance(r, str):
             # the line of the assigned VALUE of a statement whose target is on an earlier line
             for s in self.facts.block_statements(self.node_of(r)):
